@@ -159,3 +159,25 @@ def big_episodes(seed, count, sizes=(9000, 20000, 40000, 150000, 300000)):
         ep["ops"] = [{"op": "open"}] + ops
         eps.append(ep)
     return eps
+
+
+def flaky_episodes(seed, count):
+    """sources that cannot be rewound: the seek issued by rewind() fails (after a partial pass, a complete
+    pass, or before anything was read); rewind must return the error, never a lender replaying something else"""
+    r = random.Random(seed ^ 0xF1A)
+    eps = []
+    for t in range(count):
+        kind = ("line_flaky", "zstd_flaky", "gzip_flaky")[t % 3]
+        nl = r.choice([1, 2, 5, 50])
+        text = rtext(r, nl)
+        ep = {"fam": "lender", "src": "flaky", "kind": kind, "input": list(text), "take": [] if r.random() < 0.7 else [r.randrange(1, nl + 2)]}
+        params(r, ep)
+        pre = r.choice([[], [{"op": "next"}], [{"op": "nexts", "c": max(1, nl // 2)}], [{"op": "drain"}],
+                        [{"op": "drain"}, {"op": "next"}], [{"op": "next"}, {"op": "rewind"}, {"op": "drain"}]])
+        ep["ops"] = [{"op": "open"}] + pre + [{"op": "rewind", "fail": True}, {"op": "next"}, {"op": "drain"}]
+        eps.append(ep)
+        # control: the same history on the same source with a seek that works
+        ep2 = dict(ep)
+        ep2["ops"] = [{"op": "open"}] + pre + [{"op": "rewind"}, {"op": "drain"}, {"op": "rewind", "fail": True}]
+        eps.append(ep2)
+    return eps
